@@ -57,6 +57,7 @@ def build_model():
 
 def build_harness(release=False, features=""):
     """cargo rebuilds from /repo's current working tree (path dependency)"""
+    os.makedirs(os.path.join(HARNESS, "fixtures", "empty"), exist_ok=True)   # git does not keep empty folders
     flag = "--release" if release else ""
     feat = ("--features " + features) if features else ""
     rc, out = sh("cargo build --offline %s %s 2>&1" % (flag, feat), cwd=HARNESS, check=False, timeout=1800)
